@@ -22,7 +22,7 @@ type forCase struct {
 
 func genForCase(t *rapid.T) forCase {
 	var c forCase
-	c.Cfg = gen.AsmConfig{CoreSize: rapid.SampledFrom([]int64{8000, 8192, 55440}).Draw(t, "M"), Length: 3000, Distance: 100, Processes: 8}
+	c.Cfg = gen.AsmConfig{NOP94: rapid.Bool().Draw(t, "nop94"), CoreSize: rapid.SampledFrom([]int64{8000, 8192, 55440}).Draw(t, "M"), Length: 3000, Distance: 100, Processes: 8}
 	c.Prog, c.Info = gen.ForProgram(t, c.Cfg)
 	c.Style = rc.Style{Choices: rapid.SliceOfN(rapid.IntRange(0, 63), 4, 40).Draw(t, "choices")}
 	// the last top-level item is a block and the text ends right after its ROF
@@ -105,6 +105,7 @@ func judgeForCase(c forCase, rec *hx.Rec) string {
 		add(i.LabelUsedOutside, "block_label_used_outside")
 		add(i.BodyStartsWithFor, "labelled_body_starts_with_for")
 		add(i.NoCounter, "block_without_counter")
+		add(i.EquBetweenBlocks, "equ_defined_between_items")
 		add(i.Instances > 12, "more_than_12_instances")
 		add(c.RofAtEOF, "rof_is_last_bytes")
 		add(i.MaxDepth >= 3, "depth_3")
